@@ -366,8 +366,12 @@ func (c *Ctx) mustCallInstrs(g *ssa.Function, isTarget func(cc *ssa.CallCommon) 
 		all := true
 		for _, ret := range engine.Returns(sc) {
 			if lr := engine.LastResult(ret); lr != nil && lr.Type().String() == "error" && !engine.IsNilConst(lr) {
-				if _, isCall := lr.(*ssa.Call); !isCall {
+				call, isCall := lr.(*ssa.Call)
+				if !isCall {
 					continue // a failure return
+				}
+				if sc2 := call.Call.StaticCallee(); sc2 != nil && (sc2.String() == "fmt.Errorf" || sc2.String() == "errors.New") {
+					continue // a freshly made error: a failure return as well
 				}
 			}
 			if engine.ReachesAvoiding(sc, ret, inner, nil) {
